@@ -14,7 +14,7 @@ under `strace -f -y`; for every scenario
     fsync / rename / unlink, or by a watcher once the temp file holds the bytes sent so far) and
     the cache file must still be old-or-new, exactly as the model's state at that crash point.
 """
-import json, os, re, shutil, signal, subprocess, threading, time
+import json, os, random, re, shutil, signal, subprocess, threading, time
 from concurrent.futures import ThreadPoolExecutor
 from tools import vlib, fault_http
 
@@ -72,12 +72,14 @@ def money_class(out):
 
 
 # ------------------------------------------------------------------------------ scenarios
-def server_variants(tier_thorough, n):
-    """Server behaviours: (name, plan-without-body)."""
+def server_variants(tier_thorough, n, seed=1):
+    """Server behaviours: (name, plan-without-body).  VERIF_SEED adds cut offsets of its own."""
+    rng = random.Random(seed)
+    extra = sorted(set(rng.randrange(2, n - 1) for _ in range(24 if tier_thorough else 3)))
     cuts_quick = [0, 1, 1448, n - 1]
     cuts_thorough = sorted(set([0, 1, 2, 511, 512, 999, 1000, 1001, 1447, 1448, 1449, 2896, 2999, 3000, 3001, 4096, n // 2, n - 2, n - 1] +
                                list(range(256, n, 256))))
-    cuts = cuts_thorough if tier_thorough else cuts_quick
+    cuts = sorted(set((cuts_thorough if tier_thorough else cuts_quick) + extra))
     v = [("200-complete", {"kind": "full", "status": 200, "pieces": []}),
          ("200-complete-3pieces", {"kind": "full", "status": 200, "pieces": [1000, 3000]})]
     if tier_thorough:
@@ -99,9 +101,9 @@ def server_variants(tier_thorough, n):
 PRIORS = ["absent", "fresh", "stale", "stale-bad", "fresh-bad"]
 
 
-def build_matrix(thorough, n):
+def build_matrix(thorough, n, seed=1):
     scns = []
-    servers = server_variants(thorough, n)
+    servers = server_variants(thorough, n, seed)
     i = 0
     for prior in PRIORS:
         for sname, plan in servers:
@@ -788,7 +790,7 @@ def run(c):
     if not cli_ok:
         return
     ct = Contents()
-    use_strace = have_strace(c.work)
+    use_strace = have_strace(c.work) and not os.environ.get("C20_NO_STRACE")
     c.obligations.append(("tool:strace available (syscall shape and kill injection)", use_strace, "" if use_strace else "strace missing or ptrace not permitted: only bytes and outputs are compared, kills by watcher only"))
     for d in os.listdir(c.work):
         if re.match(r"^s\d+$", d):
@@ -800,7 +802,7 @@ def run(c):
     n = len(ct.new)
     try:
         # 1. the matrix
-        scns = build_matrix(c.thorough, n)
+        scns = build_matrix(c.thorough, n, c.seed)
         obs = execute(c, runner, scns, jobs)
         if model_ok:
             judge_all(c, runner, scns, obs, seen, stats)
@@ -865,7 +867,7 @@ def run(c):
         "evaluations": stats["runs"],
         "distinct_nontrivial": len(stats["nontrivial"]),
         "rule": "one case = prior cache state {absent, fresh, stale, stale+unreadable JSON, fresh+unreadable JSON, mtime in the future} x server behaviour "
-                "{200 complete in 1/3/8 pieces, 200 with Content-Length cut after k bytes (k in %s), 301/404/500%s with a body, stall before headers / after k bytes past the client's timeout, "
+                "{200 complete in 1/3/8 pieces, 200 with Content-Length cut after k bytes (k in %s plus offsets drawn from VERIF_SEED), 301/404/500%s with a body, stall before headers / after k bytes past the client's timeout, "
                 "refused, chunked body without terminator, RST} x entry point {expression arguments, -f -, --fetch-currency} [x kill point: SIGKILL at the entry of the k-th write(2), "
                 "mkdir, fsync, rename, unlink (strace inject) or in the middle of a stalled transfer], each followed by a next start with the server unreachable; "
                 "distinct = distinct (prior, server, entry, config, kill point); non-trivial = the run contacted the server, touched the cache directory beyond opening the cache file, or was killed"
